@@ -85,10 +85,16 @@ class ZSeq(SymVal):
                 if v is None:
                     return default
                 v = L.toint(v)
+                # bounds that are provably inside [0, len] need no clamping (keeps the terms small)
+                if not ctx.feasible(z3.Not(z3.And(v >= 0, v <= n))):
+                    return v
                 return z3.If(v < 0, z3.If(n + v < 0, 0, n + v), z3.If(v > n, n, v))
             lo = norm(a, z3.IntVal(0))
             hi = norm(b, n)
-            ln = z3.If(hi > lo, hi - lo, 0)
+            if not ctx.feasible(z3.Not(hi >= lo)):
+                ln = hi - lo
+            else:
+                ln = z3.If(hi > lo, hi - lo, 0)
             return ZSeq(z3.SubSeq(self.t, lo, ln), self.kind)
         idx = simplify_native(idx)
         i = L.toint(idx)
